@@ -95,6 +95,8 @@ class Dumper:
         self.n_steal = 0
         self.n_respill = 0
         self.n_classes = 0
+        self.n_final = 0
+        self.n_marker_lost = 0
         self.n_init_stores = 0
         self.init_effect = None
         self.n_class_claims = 0
@@ -110,6 +112,7 @@ class Dumper:
         self.n_heapref = 0
         self.steal_before = {}
         self.preexisting = set()
+        self.cp_map: dict[Any, Any] = {}
 
     def pre_pass(self, fn) -> None:
         """Record, BEFORE insert_ref_count_opcodes runs, what the pass consumes and erases:
@@ -118,6 +121,7 @@ class Dumper:
         from mypyc.ir import ops as O
         self.steal_before: dict[Any, list[Any]] = {}
         self.preexisting: set[Any] = set()
+        self.cp_map = {}
         for b in fn.blocks:
             pending: list[Any] = []
             for op in b.ops:
@@ -194,7 +198,7 @@ class Dumper:
         self.n_borrow_unknown += 1
         return None
 
-    def dump_func(self, tag: str, fn) -> None:
+    def dump_func(self, tag: str, fn, final: bool = False) -> None:
         from mypyc.ir import ops as O
         from mypyc.ir.pprint import format_func
         from mypyc.ir.rtypes import RArray
@@ -210,7 +214,7 @@ class Dumper:
         buf: list[str] = []
         w = buf.append
         name = f"{tag}::{fn.decl.module_name}.{fn.decl.class_name + '.' if fn.decl.class_name else ''}{fn.name}"
-        name = re.sub(r"\s+", "_", name)
+        name = re.sub(r"\s+", "_", name) + ("@final" if final else "")
         w(f"F {name}\n")
         sig_args = list(fn.decl.sig.args)
         for i, a in enumerate(fn.arg_regs):
@@ -302,8 +306,14 @@ class Dumper:
             for op in b.ops:
                 # a KeepAlive(steal=True) that the pass consumed stood right before this op
                 for ka in self.steal_before.get(op, ()):
-                    ks = [s for s in ka.sources() if not isinstance(s, LIT)]
-                    kst = [s for s in ka.stolen() if not isinstance(s, LIT) and s.type.is_refcounted]
+                    def res(v_):
+                        # the KeepAlive op is no longer part of the IR: apply copy propagation's renaming ourselves
+                        k_ = 0
+                        while v_ in self.cp_map and k_ < 50:
+                            v_, k_ = self.cp_map[v_], k_ + 1
+                        return v_
+                    ks = [res(s) for s in ka.sources() if not isinstance(s, LIT)]
+                    kst = [res(s) for s in ka.stolen() if not isinstance(s, LIT) and s.type.is_refcounted]
                     w(f"O {K_KEEPALIVE} 0 0 0 0 1 {len(ks)} " + "".join(f"{vid(s)} " for s in ks)
                       + f"{len(kst)}" + "".join(f" {vid(s)}" for s in kst) + " 0\n")
                     self.n_steal += 1
@@ -394,7 +404,10 @@ class Dumper:
                       + f" {len(kill)}" + "".join(f" {t}" for t in kill) + "\n")
         w("E\n")
         pretty = f"### {name}\n" + "\n".join(format_func(fn)) + "\n" if self.txt is not None else ""
-        if self.pending and self.pending[-1][0] is fn:
+        if final:
+            self.pending.append((None, "".join(buf), pretty))
+            self.n_final += 1
+        elif self.pending and self.pending[-1][0] is fn:
             self.pending[-1] = (fn, "".join(buf), pretty)      # re-snapshot of the same function (after spill)
             self.n_respill += 1
         else:
@@ -555,6 +568,60 @@ def child_compile_case(d: Dumper, repo: str, tfile: str, case: str, main: str, f
         # the next pass; the refcount output is only path-correct together with it -> snapshot again.
         real_spill(fn, env)
         d.dump_func(tag, fn)
+    # ---- final IR (what codegen sees): snapshot again after lower -> copy propagation -> flag elimination.
+    # Ops that the later passes replace/remove may be the anchor of a re-inserted KeepAlive(steal) marker:
+    # carry the marker over to the op that takes their place.
+    import mypyc.transform.lower as lowermod
+    import mypyc.transform.copy_propagation as cpmod
+    import mypyc.transform.ir_transform as irtmod
+    real_flag = emitmodule.do_flag_elimination
+    real_vpo = lowermod.LoweringVisitor.visit_primitive_op
+    real_cpa = cpmod.CopyPropagationTransform.visit_assign
+    real_add = irtmod.IRTransform.add
+    def wrapped_flag(fn, options) -> None:
+        real_flag(fn, options)
+        d.dump_func(tag, fn, final=True)
+
+    import mypyc.irbuild.ll_builder as llb
+    real_tb = irtmod.IRTransform.transform_blocks
+    real_badd = llb.LowLevelIRBuilder.add
+    track: dict[str, Any] = {"on": False, "pending": []}
+
+    class TrackList(list):
+        """block.ops of the transform's input: tells which source op is being rewritten."""
+        def __iter__(self):
+            for op_ in list.__iter__(self):
+                if track["on"] and op_ in d.steal_before:
+                    track["pending"] += d.steal_before.pop(op_)
+                yield op_
+
+    def wrapped_badd(self_, op):
+        # the first op emitted for (or after) a source op that anchored a KeepAlive(steal) marker inherits it
+        if track["on"] and track["pending"]:
+            d.steal_before.setdefault(op, []).extend(track["pending"])
+            track["pending"] = []
+        return real_badd(self_, op)
+
+    def wrapped_tb(self_, blocks) -> None:
+        for b_ in blocks:
+            b_.ops = TrackList(b_.ops)
+        track["on"], track["pending"] = True, []
+        try:
+            real_tb(self_, blocks)
+        finally:
+            track["on"] = False
+            d.n_marker_lost += len(track["pending"])
+            track["pending"] = []
+    real_cpinit = cpmod.CopyPropagationTransform.__init__
+
+    def wrapped_cpinit(self_, builder, map) -> None:
+        d.cp_map.update(map)
+        real_cpinit(self_, builder, map)
+    if os.environ.get("VERIF_C06_FINAL", "1") == "1":
+        emitmodule.do_flag_elimination = wrapped_flag
+        irtmod.IRTransform.transform_blocks = wrapped_tb
+        llb.LowLevelIRBuilder.add = wrapped_badd
+        cpmod.CopyPropagationTransform.__init__ = wrapped_cpinit
     import mypyc.irbuild.main as ibmain
     real_ada = ibmain.analyze_always_defined_attrs
 
@@ -596,6 +663,10 @@ def child_compile_case(d: Dumper, repo: str, tfile: str, case: str, main: str, f
     finally:
         emitmodule.insert_ref_count_opcodes = real
         emitmodule.insert_spills = real_spill
+        emitmodule.do_flag_elimination = real_flag
+        irtmod.IRTransform.transform_blocks = real_tb
+        llb.LowLevelIRBuilder.add = real_badd
+        cpmod.CopyPropagationTransform.__init__ = real_cpinit
         ibmain.analyze_always_defined_attrs = real_ada
         adef.update_always_defined_attrs_using_subclasses = real_upd
         d.flush()
@@ -637,7 +708,7 @@ def child_main(jobfile: str) -> None:
                "n_respill": d.n_respill, "n_ext_regs": d.n_ext_regs,
                "n_assume": d.n_assume, "n_spill_reads": d.n_spill_reads, "n_borrow_owner": d.n_borrow_owner,
                "n_borrow_static": d.n_borrow_static, "n_borrow_unknown": d.n_borrow_unknown,
-               "n_classes": d.n_classes, "n_class_claims": d.n_class_claims, "n_init_stores": d.n_init_stores},
+               "n_classes": d.n_classes, "n_class_claims": d.n_class_claims, "n_init_stores": d.n_init_stores, "n_final": d.n_final, "n_marker_lost": d.n_marker_lost},
               open(job["out"] + ".status", "w"))
 
 
@@ -916,7 +987,7 @@ def py_check(args, blocks) -> str:
         steps = 0
         while work:
             steps += 1
-            if steps > 50 * len(blocks) + 100:
+            if steps > 400 * len(blocks) + 2000:
                 return "no fixpoint"
             b = work.pop()
             for (t, s) in transfer(b, ann[b]):
@@ -997,7 +1068,7 @@ def run_dump(repo: str, items: list[dict], tmp: str, nproc: int, pretty: bool = 
     dumps, status, failures = [], [], []
     counters = {"n_steal": 0, "n_heapref": 0, "n_unnamed_undef": 0, "n_respill": 0, "n_ext_regs": 0, "n_assume": 0, "n_spill_reads": 0,
                 "n_borrow_owner": 0, "n_borrow_static": 0, "n_borrow_unknown": 0, "n_classes": 0, "n_class_claims": 0,
-                "n_init_stores": 0}
+                "n_init_stores": 0, "n_final": 0, "n_marker_lost": 0}
     counters["chunks_skipped_for_time"] = len(skipped)
     for out, st, err in res:
         if out is None:
@@ -1113,7 +1184,7 @@ CODE_TEXT = {11: "initializing attribute store (SetAttr.is_init, the old value i
 
 def classify(name: str, code: int) -> tuple[str, str]:
     """Stable key + description of a validator rejection (one key per cause, not per function)."""
-    fn = name.split("::")[-1]
+    fn = name.split("::")[-1].replace("@final", "")
     if fn.endswith(".close") and code == 3:
         return ("gen-close-null-decref",
                 "generator close(): the GeneratorExit lookup result is dec_ref'ed on the path where the lookup "
@@ -1411,6 +1482,72 @@ print("ALIVE", flush=True)
 '''
 
 
+def _gcc_lib(name: str) -> str:
+    try:
+        p = subprocess.run(["gcc", "-print-file-name=" + name], capture_output=True, text=True, timeout=30).stdout.strip()
+        return p if os.path.isabs(p) and os.path.exists(p) else ""
+    except Exception:
+        return ""
+
+
+def sanitizer_build(tmp: str):
+    """Compile the monitor module's generated C with -fsanitize=address,undefined. Returns (dir|None, note)."""
+    import vlib
+    asan, ubsan = _gcc_lib("libasan.so"), _gcc_lib("libubsan.so")
+    if not asan or not ubsan:
+        return None, "sanitizer runtime not found (gcc -print-file-name=libasan.so / libubsan.so)"
+    d = os.path.join(tmp, "dyn_san")
+    os.makedirs(d)
+    open(os.path.join(d, "c06dyn.py"), "w").write(DYN_MOD)
+    open(os.path.join(d, "c06dyn_interp.py"), "w").write(DYN_MOD)
+    open(os.path.join(d, "drive.py"), "w").write(DYN_DRIVER)
+    open(os.path.join(d, "drive_close.py"), "w").write(DYN_CLOSE_DRIVER)
+    env = vlib.py_env()
+    env["PYTHONPATH"] = vlib.REPO
+    env["CFLAGS"] = "-fsanitize=address,undefined -fno-omit-frame-pointer -O1"
+    env["LDFLAGS"] = "-fsanitize=address,undefined"
+    st, out = vlib.sh([vlib.PY, "-m", "mypyc", "c06dyn.py"], cwd=d, env=env, timeout=600)
+    if st != 0 or not any(f.endswith(".so") for f in os.listdir(d)):
+        return None, "sanitizer build failed: " + out[-300:]
+    os.remove(os.path.join(d, "c06dyn.py"))
+    return d, asan + ":" + ubsan
+
+
+def sanitizer_run(ctx, built) -> None:
+    """Run the dynamic cases on the sanitizer build: any ASan / UBSan report is a violation."""
+    import vlib
+    d, note = built
+    if d is None:
+        ctx.cov["sanitizer"] = "skipped: " + note
+        ctx.log("sanitizer monitor skipped:", note)
+        return
+    env = vlib.py_env()
+    env["PYTHONPATH"] = vlib.REPO + os.pathsep + d
+    env["LD_PRELOAD"] = note
+    env["ASAN_OPTIONS"] = "detect_leaks=0:halt_on_error=1:abort_on_error=0"
+    env["UBSAN_OPTIONS"] = "print_stacktrace=1:halt_on_error=0"
+    env["PYTHONMALLOC"] = "malloc"           # every object allocation is visible to ASan (use after free, overflow)
+    st, out = vlib.sh([vlib.PY, "drive.py"], cwd=d, env=env, timeout=900)
+    reports = [l for l in out.splitlines() if "ERROR: AddressSanitizer" in l or "runtime error:" in l]
+    ctx.add("sanitizer_runs", 25 * 1000)
+    if reports or "LITDONE" not in out:
+        kind = re.sub(r"[^A-Za-z-]+", "-", (reports[0] if reports else f"status-{st}").split("AddressSanitizer:")[-1])[:60].strip("-")
+        i = out.find(reports[0]) if reports else max(0, len(out) - 1500)
+        ctx.violation("sanitizer-" + kind, "AddressSanitizer/UBSan report while running the compiled monitor module: "
+                      + (reports[0] if reports else f"process status {st}")[:300],
+                      {"module": DYN_MOD, "driver": DYN_DRIVER, "report": out[i:i + 4000],
+                       "how": "CFLAGS='-fsanitize=address,undefined -fno-omit-frame-pointer -O1' LDFLAGS='-fsanitize=address,undefined' "
+                              "python -m mypyc c06dyn.py; LD_PRELOAD=libasan.so:libubsan.so PYTHONMALLOC=malloc python drive.py"})
+    # positive control: the known NULL dec_ref in close() must show up as an ASan SEGV report
+    st2, out2 = vlib.sh([vlib.PY, "drive_close.py"], cwd=d, env=env, timeout=120)
+    ctrl = "ERROR: AddressSanitizer" in out2
+    ctx.cov["sanitizer"] = {"runtime": note, "reports": len(reports),
+                            "positive_control_gen_close_detected": ctrl}
+    if ctrl:
+        ctx.violation("gen-close-null-decref", "AddressSanitizer: SEGV in generator close() (known NULL dec_ref)",
+                      {"report": out2[out2.find("ERROR: AddressSanitizer"):][:2000]})
+
+
 def dynamic_monitor(ctx, tmp: str) -> None:
     import vlib
     d = os.path.join(tmp, "dyn")
@@ -1421,6 +1558,10 @@ def dynamic_monitor(ctx, tmp: str) -> None:
     open(os.path.join(d, "drive_close.py"), "w").write(DYN_CLOSE_DRIVER)
     env = vlib.py_env()
     env["PYTHONPATH"] = vlib.REPO
+    # second build of the same generated C under AddressSanitizer + UBSan (gcc runtime, LD_PRELOAD), in parallel
+    from concurrent.futures import ThreadPoolExecutor
+    san_pool = ThreadPoolExecutor(max_workers=1)
+    san_future = san_pool.submit(sanitizer_build, tmp) if os.environ.get("VERIF_C06_SANITIZER", "1") == "1" else None
     st, out = vlib.sh([vlib.PY, "-m", "mypyc", "c06dyn.py"], cwd=d, env=env, timeout=600)
     if st != 0 or not any(f.endswith(".so") for f in os.listdir(d)):
         ctx.broke("S", "dynamic monitor", "mypyc compilation of the monitor module failed:\n" + out[-1500:])
@@ -1451,6 +1592,9 @@ def dynamic_monitor(ctx, tmp: str) -> None:
                       "(139 = SIGSEGV) when the coroutine is called repeatedly",
                       {"module": DYN_MOD, "driver": DYN_DRIVER, "status": st, "output": out[-800:],
                        "how": "python -m mypyc c06dyn.py && python drive.py"})
+    if san_future is not None:
+        sanitizer_run(ctx, san_future.result())
+    san_pool.shutdown(wait=False)
     st, out = vlib.sh([vlib.PY, "drive_close.py"], cwd=d, env=env, timeout=120)
     if "ALIVE" not in out:
         ctx.violation("gen-close-null-decref",
@@ -1477,7 +1621,8 @@ def run_validator(exe: str, dumps: list[str]) -> dict[str, list[str]]:
 def run(ctx) -> None:
     import vlib
     ctx.cov["rule"] = ("one evaluation = one FuncIR emitted by the real mypyc pipeline (snapshot after insert_ref_count_opcodes; "
-                       "after insert_spills for generator bodies) judged by the Coq-extracted validator; non-trivial = the "
+                       "after insert_spills for generator bodies; and again the FINAL IR after lower -> copy propagation -> flag "
+                       "elimination, names ending in @final) judged by the Coq-extracted validator; non-trivial = the "
                        "function contains at least one inc_ref/dec_ref or error branch")
     ctx.assumptions += [
         "op contracts are the declarations of the real op objects (stolen(), is_borrowed, error_kind, type.is_refcounted); "
@@ -1582,6 +1727,7 @@ def run(ctx) -> None:
                 elif n % 400 == 1:
                     ctx.sample({"function": name, "verdict": "accepted", "blocks": len(blocks)})
         ctx.add("evaluations", n)
+        ctx.cov["final_ir_functions"] = sum(1 for k in verdicts if k.endswith("@final"))
         ctx.cov["distinct_nontrivial"] = nontriv
         ctx.add("traces_validated_against_impl", n)
         ctx.cov["rejected_functions"] = sum(len(v) for v in rejected.values())
